@@ -86,13 +86,12 @@ Section Tok.
   Variable terms : list term_info.
   Variable rx : N -> N -> option N.
   Variables in_len stop_id : N.
-  Variable lexdis : bool.
+  Variables consume lexdis : bool.
   Variable skipws : N -> skres.
   Variable rorder : list nat -> list nat -> list nat.
   Variable sk : N -> N.
 
-  Notation consume := true (only parsing).
-  Notation tokens := (tokens_at tb terms rx in_len stop_id true lexdis).
+  Notation tokens := (tokens_at tb terms rx in_len stop_id consume lexdis).
 
   Hypothesis Hsk : forall p q, skipws p = SkOk q -> q = sk p.
   Hypothesis Hsk_ge : forall p, (p <= sk p)%N.
@@ -106,11 +105,12 @@ Section Tok.
 
   Lemma tokens_facts s pos y l :
     In (y, l) (tokens s pos) ->
-    (y = stop_id /\ pos = in_len) \/ (y <> stop_id /\ rx y pos = Some l /\ (pos < in_len)%N).
+    (y = stop_id /\ (consume = true -> pos = in_len)) \/
+    (y <> stop_id /\ rx y pos = Some l /\ (pos < in_len)%N).
   Proof.
     unfold tokens_at. destruct (get_state tb s) as [sta|]; [|intros []].
     intros H. apply next_tokens_facts in H. destruct H as [(E1 & _ & E3)|(E1 & E2)].
-    - left. split; [exact E1|apply E3; reflexivity].
+    - left. split; [exact E1|exact E3].
     - right. split; [|split; assumption]. intros ->. rewrite Hrxstop in E1. discriminate.
   Qed.
 
@@ -118,7 +118,7 @@ Section Tok.
 
   (* the lookahead of a node standing at [pos] *)
   Definition tok_ok (pos : N) (t : token) : Prop :=
-    (tk_sym t = stop_id /\ pos = in_len) \/
+    (tk_sym t = stop_id /\ (consume = true -> pos = in_len)) \/
     (tk_sym t <> stop_id /\ tk_pos t = pos /\ exists s, In (tk_sym t, tk_len t) (tokens s pos)).
 
   Definition proc (P : N -> N) (n : gnode) : Prop :=
@@ -323,6 +323,10 @@ Section Tok.
 
   Definition loopb (fr : list frame) : bool := match fr with FLoop :: _ => true | _ => false end.
 
+  (* accepted heads are recorded in the order of their frontiers *)
+  Definition acc_sorted (ns : list gnode) (l : list nat) : Prop :=
+    forall l1 h l2, l = l1 ++ h :: l2 -> Forall (fun h' => (nfr ns h' <= nfr ns h)%N) l1.
+
   Definition regs2_ok (P : N -> N) (K : N) (ns : list gnode) (st : gst) (loop : bool) : Prop :=
     (if loop
      then Forall (fun sh => fresh P K (nth (snd sh) ns dnode)) (s_active st) /\
@@ -332,7 +336,8 @@ Section Tok.
     Forall (fun yd => Forall (fun sh => head_ok P K ns (snd sh)) (snd yd)) (s_persym st) /\
     Forall (head_ok P K ns) (s_actor st) /\
     Forall (fun e => head_ok P K ns (fst e)) (s_shifter st) /\
-    Forall (fun h => sk (P (nfr ns h)) = in_len /\ (nfr ns h <= K)%N) (s_accepted st).
+    (Forall (fun h => (consume = true -> sk (P (nfr ns h)) = in_len) /\ (nfr ns h <= K)%N) (s_accepted st) /\
+     acc_sorted ns (s_accepted st)).
 
   Definition frame2_ok (P : N -> N) (K : N) (ns : list gnode) (ps : list gparent) (f : frame) : Prop :=
     match f with
@@ -454,6 +459,29 @@ Section Tok.
     intros He Hv H. rewrite Forall_forall in *. intros h Hh. eapply head_ok_exts; [exact He|apply Hv; exact Hh|apply H; exact Hh].
   Qed.
 
+  Lemma acc_sorted_ext ns ps ns' ps' l :
+    ext ns ps ns' ps' -> Forall (fun h => h < length ns) l -> acc_sorted ns l -> acc_sorted ns' l.
+  Proof.
+    intros He Hv H l1 h l2 E. specialize (H l1 h l2 E). subst l.
+    apply Forall_app in Hv. destruct Hv as [Hv1 Hv2]. inversion Hv2 as [|x r Hh _]; subst x r.
+    rewrite Forall_forall in *. intros h' Hh'.
+    rewrite (ext_nfr _ _ _ _ _ He Hh), (ext_nfr _ _ _ _ _ He (Hv1 h' Hh')). apply H. exact Hh'.
+  Qed.
+
+  Lemma acc_sorted_snoc ns l h :
+    acc_sorted ns l -> Forall (fun h' => (nfr ns h' <= nfr ns h)%N) l -> acc_sorted ns (l ++ [h]).
+  Proof.
+    intros Hs Hall l1 x l2 E. destruct l2 as [|y r].
+    - apply app_inj_tail in E. destruct E as [<- <-]. exact Hall.
+    - assert (E' : l = l1 ++ x :: removelast (y :: r)).
+      { apply (f_equal (@removelast nat)) in E. rewrite removelast_last in E.
+        rewrite E. rewrite removelast_app by discriminate. cbn [removelast]. reflexivity. }
+      exact (Hs _ _ _ E').
+  Qed.
+
+  Lemma acc_valid ns st : Forall (acc_ok tb ns) (s_accepted st) -> Forall (fun h => h < length ns) (s_accepted st).
+  Proof. intros H. rewrite Forall_forall in *. intros h Hh. exact (proj1 (H h Hh)). Qed.
+
   Lemma regs2_ok_exts P K ns ps ns' ps' st st' :
     exts ns ps ns' ps' -> regs st' = regs st -> regs_ok tb ns st ->
     regs2_ok P K ns st false -> regs2_ok P K ns' st' false.
@@ -469,13 +497,14 @@ Section Tok.
       eapply head_ok_exts; [exact He|exact (proj1 (V2 x Hx'))|apply H2; exact Hx']. }
     split; [eapply Forall_head_exts; eassumption|]. split.
     { rewrite Forall_forall in *. intros x Hx'. eapply head_ok_exts; [exact He|exact (proj1 (V4 x Hx'))|apply H4; exact Hx']. }
+    destruct H5 as [H5 H5s]. split; [|eapply acc_sorted_ext; [exact Hx|apply acc_valid; exact V5|exact H5s]].
     rewrite Forall_forall in *. intros h Hh. destruct (V5 h Hh) as [Hv _].
     rewrite (ext_nfr _ _ _ _ _ Hx Hv). apply H5. exact Hh.
   Qed.
 
   (* ---- steps that do not move the frontier ----------------------------------------------------- *)
 
-  Notation step := (glr_step g tb terms rx in_len stop_id true lexdis skipws rorder).
+  Notation step := (glr_step g tb terms rx in_len stop_id consume lexdis skipws rorder).
 
   Lemma pop_last_none {X} (l : list X) : pop_last l = None -> l = [].
   Proof.
@@ -561,11 +590,13 @@ Section Tok.
     - inversion H; subst; clear H. cbn [loopb].
       split; [exact Hlt|]. split; [exact Hheap|]. split.
       + unfold regs2_ok. cbn. split; [exact R1|]. split; [exact R2|]. split; [exact R3|]. split; [exact R4|].
-        apply Forall_app. split; [exact R5|]. constructor; [|constructor].
-        destruct Hh as (F1 & (F2 & F3) & _).
-        inversion Hall as [|x l Hacc _]; subst x l. apply Haccstop in Hacc.
-        destruct (F3 t Ht) as [[_ E]|[E _]]; [|congruence].
-        unfold nfr in *. rewrite F1. split; [|lia]. rewrite <- F1, <- F2. exact E.
+        destruct R5 as [R5 R5s]. destruct Hh as (F1 & (F2 & F3) & _). split.
+        * apply Forall_app. split; [exact R5|]. constructor; [|constructor].
+          inversion Hall as [|x l Hacc _]; subst x l. apply Haccstop in Hacc.
+          destruct (F3 t Ht) as [[_ E]|[E _]]; [|congruence].
+          unfold nfr in *. rewrite F1. split; [|lia]. intros Hcon. rewrite <- F1, <- F2. exact (E Hcon).
+        * apply acc_sorted_snoc; [exact R5s|]. rewrite F1. rewrite Forall_forall in *. intros h' Hh'.
+          exact (proj2 (R5 h' Hh')).
       + split; [constructor; [exact Hh|exact Hk]|]. apply (ctrl_push _ [FActor h r]); [reflexivity|exact Hin].
   Qed.
 
@@ -1054,7 +1085,7 @@ Section Tok.
   Qed.
 
   Lemma find_la2_ok P K : forall act st st',
-    find_la tb terms rx in_len stop_id true lexdis skipws st act = FOk st' ->
+    find_la tb terms rx in_len stop_id consume lexdis skipws st act = FOk st' ->
     heap_ok g tb (s_nodes st) (s_pars st) -> heap2_ok P K true (s_nodes st) (s_pars st) ->
     persym_ok (s_nodes st) (s_persym st) -> persym2_ok P K (s_nodes st) (s_persym st) ->
     Forall (fun sh => snd sh < length (s_nodes st) /\ fresh P K (nth (snd sh) (s_nodes st) dnode)) act ->
@@ -1134,7 +1165,7 @@ Section Tok.
     destruct Hk as (-> & Hact & Hsh). cbn [loopb] in *.
     destruct Hregs as ((R1 & R1n & R1c) & R2 & R3 & R4 & R5).
     destruct (s_active st) as [|a0 ar] eqn:Ea; [discriminate|]. rewrite <- Ea in *. clear Ea a0 ar.
-    destruct (find_la tb terms rx in_len stop_id true lexdis skipws (set_persym st []) (rev (s_active st)))
+    destruct (find_la tb terms rx in_len stop_id consume lexdis skipws (set_persym st []) (rev (s_active st)))
       as [st1| |] eqn:Ef; try discriminate.
     injection H as <- <-.
     destruct (find_la_ok g tb _ _ _ _ _ _ _ _ _ _ Ef) as (B1 & B2 & B3 & B4 & B5).
@@ -1151,6 +1182,7 @@ Section Tok.
     unfold inv2. cbn [loopb]. split; [exact Hlt|]. split; [exact C1|]. split.
     - unfold regs2_ok. rewrite B4, E1, E3, E4, Hact, Hsh.
       split; [constructor|]. split; [exact C2|]. split; [constructor|]. split; [constructor|].
+      destruct R5 as [R5 R5s]. split; [|eapply acc_sorted_ext; [exact B2|apply acc_valid; exact V5|exact R5s]].
       rewrite Forall_forall in *. intros h Hh. destruct (V5 h Hh) as [Hv _].
       rewrite (ext_nfr _ _ _ _ _ B2 Hv). apply R5. exact Hh.
     - split; [constructor; [exact I|constructor; [exact I|constructor]]|].
@@ -1440,7 +1472,9 @@ Section Tok.
       split; [exact C2|]. split.
       { unfold regs2_ok. cbn [set_shifter s_active s_persym s_actor s_shifter s_accepted s_nodes].
         rewrite E1, E2, E4, Hper, Hact. split; [exact C3|]. split; [constructor|]. split; [constructor|].
-        split; [constructor|]. rewrite Forall_forall in *. intros h Hh. destruct (V5 h Hh) as [Hv _].
+        split; [constructor|]. destruct R5 as [R5 R5s].
+        split; [|eapply acc_sorted_ext; [exact B2|apply acc_valid; exact V5|exact R5s]].
+        rewrite Forall_forall in *. intros h Hh. destruct (V5 h Hh) as [Hv _].
         rewrite (ext_nfr _ _ _ _ _ B2 Hv). destruct (R5 h Hh) as [A1 A2].
         rewrite (HP _ A2). split; [exact A1|unfold Kp; lia]. }
       split; [constructor; [exact I|constructor]|]. apply c_loop; [cbn [set_shifter s_actor]; congruence|reflexivity].
@@ -1481,7 +1515,8 @@ Section Tok.
         * split; [constructor; [|constructor]; split; [reflexivity|split; reflexivity]|].
           split; [constructor; [intros []|constructor]|].
           intros i Hi. right. left. lia.
-        * repeat (split; [constructor|]). constructor.
+        * split; [constructor|]. split; [constructor|]. split; [constructor|]. split; [constructor|].
+          intros l1 h l2 E. destruct l1; discriminate.
       + split; [constructor; [exact I|constructor]|]. apply c_loop; reflexivity.
   Qed.
 
@@ -1519,44 +1554,76 @@ Section Tok.
     apply negb_true_iff in Hok. apply has_item_In in H. congruence.
   Qed.
 
+  Lemma lspan_nil P l f : lspan P l f f -> l = [].
+  Proof.
+    intros (_ & _ & Hb & _). rewrite N.eqb_refl in Hb. destruct l; [reflexivity|discriminate].
+  Qed.
+
+  Lemma flat_map_last {X Y} (f : X -> list Y) : forall l rest x,
+    flat_map f l = rest ++ [x] ->
+    exists l1 h l2, l = l1 ++ h :: l2 /\ In x (f h) /\ (forall h', In h' l2 -> f h' = []).
+  Proof.
+    induction l as [|a l' IH] using rev_ind; intros rest x E.
+    - destruct rest; discriminate.
+    - rewrite flat_map_app in E. cbn [flat_map] in E. rewrite app_nil_r in E.
+      destruct (f a) as [|y0 ys0] eqn:Ea using rev_ind.
+      + rewrite app_nil_r in E. destruct (IH _ _ E) as (l1 & h & l2 & -> & Hin & Hz).
+        exists l1, h, (l2 ++ [a]). split; [rewrite <- app_assoc; reflexivity|]. split; [exact Hin|].
+        intros h' Hh'. apply in_app_or in Hh'. destruct Hh' as [Hh'|[<-|[]]]; [apply Hz; exact Hh'|exact Ea].
+      + clear IHys0. rewrite app_assoc in E. apply app_inj_tail in E. destruct E as [_ <-].
+        exists l', a, []. split; [reflexivity|]. split; [rewrite Ea; apply in_or_app; right; left; reflexivity|].
+        intros h' [].
+  Qed.
+
+  (* what every tree of the returned forest satisfies: its leaves tile the input from the start
+     position to the end of an accepted frontier *)
   Theorem build_forest2_sound P K st kf nodes root :
     inv g tb st (FLoop :: kf) -> inv2 P K st (FLoop :: kf) ->
     build_forest st = GLRForest nodes root ->
     forall t, unfolds (glr_forest nodes root) (length nodes) t ->
-      chain_ok sk (leaves t) /\ All (leaf_ok tokok) (leaves t) /\
-      match bounds (leaves t) with
-      | None => sk (P 0%N) = in_len
-      | Some (fs, le) => fs = sk (P 0%N) /\ (le <= in_len)%N /\ sk le = in_len
-      end.
+      exists fe, (fe <= K)%N /\ (consume = true -> sk (P fe) = in_len) /\ lspan P (leaves t) 0%N fe.
   Proof.
     intros (Hheap1 & (_ & _ & _ & _ & Hacc1) & _) (Hlt & Hheap & Hregs & _ & _) Hb.
-    destruct Hregs as (_ & _ & _ & _ & Hacc2). unfold build_forest in Hb.
+    destruct Hregs as (_ & _ & _ & _ & Hacc2 & Hsorted). unfold build_forest in Hb.
     set (ns := s_nodes st) in *. set (ps := s_pars st) in *.
-    set (results := flat_map (fun h => map snd (n_parents (getn st h))) (s_accepted st)) in *.
+    set (pf := fun h => map snd (n_parents (getn st h))) in *.
+    set (results := flat_map pf (s_accepted st)) in *.
     destruct (pop_last results) as [[rest root0]|] eqn:Ep; [|discriminate].
     apply pop_last_app in Ep.
     set (ps' := fold_left (fun cur r => list_upd root0 (p_add_alts (p_alts (nth r cur dpar))) cur)
                           (rev rest) ps) in *.
     inversion Hb; subst nodes root; clear Hb. rename root0 into root.
     pose proof Hheap1 as [Hl Hn]. pose proof Hheap as [Hl2 Hn2].
-    (* every result is a link from frontier 0 to frontier K *)
-    assert (Hres : forall r, In r results ->
-              r < length ps /\ nfr ns (proot ps r) = 0%N /\ nfr ns (phead ps r) = K /\ sk (P K) = in_len).
-    { intros r Hr. unfold results in Hr. apply in_flat_map in Hr. destruct Hr as (h & Hh & Hr).
-      apply in_map_iff in Hr. destruct Hr as ([kk q] & <- & Hin). cbn [snd].
-      rewrite Forall_forall in Hacc1, Hacc2. destruct (Hacc1 h Hh) as [Hhv Hi]. destruct (Hacc2 h Hh) as [Hs Hle].
-      unfold getn in Hin. fold ns in Hin.
+    rewrite Forall_forall in Hacc1, Hacc2.
+    (* a link of an accepted head goes from frontier 0 to the head's frontier *)
+    assert (Hlink : forall h r, In h (s_accepted st) -> In r (pf h) ->
+              r < length ps /\ nfr ns (proot ps r) = 0%N /\ nfr ns (phead ps r) = nfr ns h).
+    { intros h r Hh Hr. unfold pf in Hr. apply in_map_iff in Hr. destruct Hr as ([kk q] & <- & Hin). cbn [snd].
+      destruct (Hacc1 h Hh) as [Hhv Hi]. unfold getn in Hin. fold ns in Hin.
       destruct (Hn h Hhv kk q Hin) as (B1 & B2 & B3 & B4 & _).
       destruct (proj2 (Hn2 h Hhv) kk q Hin) as [F1 _]. fold (nfr ns h) in F1.
-      assert (HK : nfr ns h = K).
-      { destruct (N.eq_dec (nfr ns h) K) as [E|Hne]; [exact E|]. exfalso.
-        assert (Hlt' : (nfr ns h < K)%N) by lia. specialize (Hlt _ Hlt'). lia. }
-      split; [exact B1|]. split; [|split; [congruence|rewrite <- HK; exact Hs]].
+      split; [exact B1|]. split; [|exact F1].
       destruct (Hl q B1) as (_ & _ & (X & HX) & _). unfold link_edge in HX. fold (phead ps q) (proot ps q) in HX.
       rewrite B3 in HX. destruct (edge_back g tb start Hts _ _ _ _ _ HX Hi) as (_ & Hi0 & _).
       apply item00_state0 in Hi0. destruct (proj1 (Hn2 _ B4)) as (_ & Hz & _). apply Hz. exact Hi0. }
-    assert (Hroot_in : In root results) by (rewrite Ep; apply in_or_app; right; left; reflexivity).
-    destruct (Hres root Hroot_in) as (Hrootv & Hroot0 & HrootK & HendK).
+    (* the root is a link of the last accepted head that has links *)
+    destruct (flat_map_last pf _ _ _ Ep) as (l1 & hs & l2 & Eacc & Hroot_in & Hl2z).
+    assert (Hhs : In hs (s_accepted st)) by (rewrite Eacc; apply in_or_app; right; left; reflexivity).
+    destruct (Hlink hs root Hhs Hroot_in) as (Hrootv & Hroot0 & HrootF).
+    set (Fr := nfr ns hs) in *.
+    pose proof (Hsorted _ _ _ Eacc) as Hle1. rewrite Forall_forall in Hle1.
+    set (accf := fun fe => (fe <= Fr)%N /\ (fe <= K)%N /\ (consume = true -> sk (P fe) = in_len)).
+    assert (HaccF : accf Fr).
+    { destruct (Hacc2 hs Hhs) as [A1 A2]. split; [lia|]. split; assumption. }
+    assert (Hres : forall r, In r results ->
+              r < length ps /\ nfr ns (proot ps r) = 0%N /\ accf (nfr ns (phead ps r))).
+    { intros r Hr. unfold results in Hr. apply in_flat_map in Hr. destruct Hr as (h & Hh & Hr).
+      destruct (Hlink h r Hh Hr) as (A1 & A2 & A3). split; [exact A1|]. split; [exact A2|]. rewrite A3.
+      destruct (Hacc2 h Hh) as [C1 C2]. split; [|split; assumption].
+      rewrite Eacc in Hh. apply in_app_or in Hh. destruct Hh as [Hh|[<-|Hh]].
+      - apply Hle1. exact Hh.
+      - unfold Fr. lia.
+      - rewrite (Hl2z h Hh) in Hr. destruct Hr. }
     destruct (merge_fold ps root rest (rev rest) ps) as (M1 & M2 & M3).
     { intros x Hx. apply in_rev. exact Hx. }
     { split; [reflexivity|]. split; [reflexivity|]. intros a Ha. left. exact Ha. }
@@ -1564,66 +1631,110 @@ Section Tok.
     set (N0 := length ps).
     assert (HN : @length pnode (map p_alts ps') = N0) by (rewrite map_length; exact M1).
     rewrite HN.
-    set (F := glr_forest (map p_alts ps') root).
+    set (Fo := glr_forest (map p_alts ps') root).
     set (frF := fun k => if k <? N0 then nfr ns (proot ps k) else 0%N).
-    set (fhF := fun k => if k <? N0 then nfr ns (phead ps k) else K).
-    assert (HnthF : forall k, k < N0 -> nth k F [] = p_alts (nth k ps' dpar)).
-    { intros k Hk. unfold F, glr_forest. rewrite app_nth1 by (rewrite HN; exact Hk).
+    set (fhF := fun k => if k <? N0 then nfr ns (phead ps k) else Fr).
+    assert (HnthF : forall k, k < N0 -> nth k Fo [] = p_alts (nth k ps' dpar)).
+    { intros k Hk. unfold Fo, glr_forest. rewrite app_nth1 by (rewrite HN; exact Hk).
       change [] with (p_alts dpar). apply map_nth. }
-    assert (HnthN : nth N0 F [] = p_alts (nth root ps' dpar)).
-    { unfold F, glr_forest. rewrite app_nth2 by (rewrite HN; lia). rewrite HN, Nat.sub_diag. cbn [nth].
+    assert (HnthN : nth N0 Fo [] = p_alts (nth root ps' dpar)).
+    { unfold Fo, glr_forest. rewrite app_nth2 by (rewrite HN; lia). rewrite HN, Nat.sub_diag. cbn [nth].
       change [] with (p_alts dpar). apply map_nth. }
-    assert (Hrootalts : forall a, In a (p_alts (nth root ps' dpar)) -> alt_pos_ok P ns ps 0%N K a).
+    assert (Hrootalts : forall a, In a (p_alts (nth root ps' dpar)) ->
+              exists fe, accf fe /\ alt_pos_ok P ns ps 0%N fe a).
     { intros a Ha. assert (Hex : exists r, In r results /\ In a (p_alts (nth r ps dpar))).
-      { destruct (M3 a Ha) as [H1|(r & Hr & H1)]; [exists root; auto|].
-        exists r. split; [|exact H1]. rewrite Ep. apply in_or_app. left. exact Hr. }
-      destruct Hex as (r & Hr & Hin). destruct (Hres r Hr) as (Hrv & Hr0 & HrK & _).
+      { destruct (M3 a Ha) as [H1|(r & Hr & H1)].
+        - exists root. split; [rewrite Ep; apply in_or_app; right; left; reflexivity|exact H1].
+        - exists r. split; [|exact H1]. rewrite Ep. apply in_or_app. left. exact Hr. }
+      destruct Hex as (r & Hr & Hin). destruct (Hres r Hr) as (Hrv & Hr0 & Hra).
       destruct (Hl2 r Hrv) as [_ Hal]. rewrite Forall_forall in Hal. specialize (Hal a Hin).
-      fold (proot ps r) (phead ps r) in Hal. rewrite Hr0, HrK in Hal. exact Hal. }
-    assert (HG : forall k a, In a (nth k F []) -> alt_pos_ok P ns ps (frF k) (fhF k) a).
+      fold (proot ps r) (phead ps r) in Hal. rewrite Hr0 in Hal. eauto. }
+    assert (HG : forall k a, In a (nth k Fo []) ->
+              alt_pos_ok P ns ps (frF k) (fhF k) a \/
+              (frF k = 0%N /\ fhF k = Fr /\ exists fe, accf fe /\ alt_pos_ok P ns ps 0%N fe a)).
     { intros k a Ha. unfold frF, fhF. destruct (Nat.lt_ge_cases k N0) as [Hlt'|Hge].
       - rewrite (HnthF k Hlt') in Ha. replace (k <? N0) with true by (symmetry; apply Nat.ltb_lt; exact Hlt').
         destruct (Nat.eq_dec k root) as [->|Hne].
-        + rewrite Hroot0, HrootK. apply Hrootalts. exact Ha.
-        + rewrite (M2 k Hne) in Ha. destruct (Hl2 k Hlt') as [_ Hal]. rewrite Forall_forall in Hal. exact (Hal a Ha).
+        + right. split; [exact Hroot0|]. split; [exact HrootF|]. apply Hrootalts. exact Ha.
+        + left. rewrite (M2 k Hne) in Ha. destruct (Hl2 k Hlt') as [_ Hal]. rewrite Forall_forall in Hal. exact (Hal a Ha).
       - destruct (Nat.eq_dec k N0) as [->|Hne].
-        + rewrite HnthN in Ha. rewrite Nat.ltb_irrefl. apply Hrootalts. exact Ha.
-        + rewrite nth_overflow in Ha; [destruct Ha|]. unfold F, glr_forest. rewrite app_length, HN. cbn. lia. }
-    assert (Htree : forall k t, unfolds F k t -> lspan P (leaves t) (frF k) (fhF k)).
-    { apply (unfolds_ind2 F
-               (fun k t _ => lspan P (leaves t) (frF k) (fhF k))
-               (fun cs ts _ => forall f f', chain_fr ns ps f cs f' -> lspan P (flat_map leaves ts) f f')).
-      - intros k y s e Hin. specialize (HG k _ Hin). cbn [alt_pos_ok] in HG.
-        destruct HG as (E1 & E2 & E3 & l & E4 & E5). cbn [leaves]. split; [exact I|]. split.
-        + cbn [All]. split; [|exact I]. unfold leaf_ok, tokok. cbn [lf_y lf_s lf_e fst snd].
-          rewrite E4. apply N.eqb_eq. symmetry. exact E5.
-        + split; [|lia]. cbn [bounds last lf_s lf_e fst snd]. rewrite E1.
-          destruct (N.eqb_spec (frF k) (frF k + 1)%N) as [E|_]; [lia|]. rewrite <- E1, <- E2, <- E3. reflexivity.
-      - intros k p s e cs ts Hin Hl' IH. specialize (HG k _ Hin). cbn [alt_pos_ok] in HG. cbn [leaves].
-        apply IH. exact HG.
-      - intros f f' H. cbn [chain_fr] in H. subst f'. cbn [flat_map]. split; [exact I|]. split; [exact I|].
+        + rewrite HnthN in Ha. rewrite Nat.ltb_irrefl. right. split; [reflexivity|]. split; [reflexivity|].
+          apply Hrootalts. exact Ha.
+        + rewrite nth_overflow in Ha; [destruct Ha|]. unfold Fo, glr_forest. rewrite app_length, HN. cbn. lia. }
+    (* spans: exact, or cut short at an earlier accepted frontier (through the merged root link) *)
+    set (wspan := fun l f f' => lspan P l f f' \/
+                    (f = 0%N /\ f' = Fr /\ exists fe, accf fe /\ lspan P l 0%N fe)).
+    assert (wspan_le : forall l f f', wspan l f f' -> (f <= f')%N).
+    { intros l f f' [(_ & _ & _ & H)|(-> & -> & _)]; lia. }
+    assert (wspan_app : forall la lb f f1 f', wspan la f f1 -> wspan lb f1 f' -> (f' <= Fr)%N -> wspan (la ++ lb) f f').
+    { intros la lb f f1 f' [A|(-> & -> & fe & Af & A)] [B|(E1 & -> & fe' & Bf & B)] Hf'.
+      - left. eapply lspan_app; eassumption.
+      - subst f1. assert (f = 0%N) by (destruct A as (_ & _ & _ & A); lia). subst f.
+        rewrite (lspan_nil _ _ _ A). right. split; [reflexivity|]. split; [reflexivity|]. exists fe'. auto.
+      - assert (f' = Fr) by (destruct B as (_ & _ & _ & B); lia). subst f'.
+        rewrite (lspan_nil _ _ _ B), app_nil_r. right. split; [reflexivity|]. split; [reflexivity|]. exists fe. auto.
+      - assert (fe' = 0%N) by (destruct Bf as (Bf & _); lia). subst fe'.
+        rewrite (lspan_nil _ _ _ B), app_nil_r. right. split; [reflexivity|]. split; [reflexivity|]. exists fe. auto. }
+    assert (Htree : forall k t, unfolds Fo k t -> (fhF k <= Fr)%N -> wspan (leaves t) (frF k) (fhF k)).
+    { apply (unfolds_ind2 Fo
+               (fun k t _ => (fhF k <= Fr)%N -> wspan (leaves t) (frF k) (fhF k))
+               (fun cs ts _ => forall f f', chain_fr ns ps f cs f' -> (f' <= Fr)%N ->
+                                            wspan (flat_map leaves ts) f f')).
+      - intros k y s e Hin Hle.
+        assert (Hleaf : forall fr fh, alt_pos_ok P ns ps fr fh (ATerm y s e) -> lspan P (leaves (TLeaf y s e)) fr fh).
+        { intros fr fh HA. cbn [alt_pos_ok] in HA. destruct HA as (E1 & E2 & E3 & l & E4 & E5).
+          cbn [leaves]. split; [exact I|]. split.
+          - cbn [All]. split; [|exact I]. unfold leaf_ok, tokok. cbn [lf_y lf_s lf_e fst snd].
+            rewrite E4. apply N.eqb_eq. symmetry. exact E5.
+          - split; [|lia]. cbn [bounds last lf_s lf_e fst snd]. rewrite E1.
+            destruct (N.eqb_spec fr (fr + 1)%N) as [E|_]; [lia|]. rewrite <- E1, <- E2, <- E3. reflexivity. }
+        destruct (HG k _ Hin) as [HA|(E1 & E2 & fe & Hf & HA)].
+        + left. apply Hleaf. exact HA.
+        + right. split; [exact E1|]. split; [exact E2|]. exists fe. split; [exact Hf|apply Hleaf; exact HA].
+      - intros k p s e cs ts Hin Hl' IH Hle. cbn [leaves].
+        destruct (HG k _ Hin) as [HA|(E1 & E2 & fe & Hf & HA)]; cbn [alt_pos_ok] in HA.
+        + apply IH; assumption.
+        + destruct (IH _ _ HA (proj1 Hf)) as [B|(_ & E3 & fe' & Bf & B)].
+          * right. split; [exact E1|]. split; [exact E2|]. exists fe. auto.
+          * right. split; [exact E1|]. split; [exact E2|]. exists fe'. auto.
+      - intros f f' H Hle. cbn [chain_fr] in H. subst f'. cbn [flat_map]. left. split; [exact I|]. split; [exact I|].
         split; [rewrite N.eqb_refl; reflexivity|lia].
-      - intros c cs t ts Hu IHu Hl' IHl f f' H. cbn [chain_fr] in H. destruct H as (C1 & _ & _ & C4 & C5).
-        cbn [flat_map]. apply (lspan_app P _ _ f (nfr ns (phead ps c)) f'); [|apply IHl; exact C5].
+      - intros c cs t ts Hu IHu Hl' IHl f f' H Hle. cbn [chain_fr] in H. destruct H as (C1 & _ & _ & C4 & C5).
+        cbn [flat_map]. pose proof (IHl _ _ C5 Hle) as Wl. pose proof (wspan_le _ _ _ Wl) as Hle1'.
+        apply (wspan_app _ _ f (nfr ns (phead ps c)) f'); [|exact Wl|exact Hle].
         unfold frF, fhF in IHu. replace (c <? N0) with true in IHu by (symmetry; apply Nat.ltb_lt; exact C1).
-        rewrite C4 in IHu. exact IHu. }
+        rewrite C4 in IHu. apply IHu. lia. }
     intros t Ht. specialize (Htree N0 t Ht). unfold frF, fhF in Htree. rewrite Nat.ltb_irrefl in Htree.
-    destruct Htree as (T1 & T2 & T3 & T4). split; [exact T1|]. split; [exact T2|]. rewrite T3.
-    destruct (N.eqb_spec 0%N K) as [<-|Hne]; [exact HendK|].
-    split; [reflexivity|]. split; [|exact HendK]. rewrite <- HendK. apply Hsk_ge.
+    destruct (Htree ltac:(lia)) as [A|(_ & _ & fe & (F1 & F2 & F3) & A)].
+    - exists Fr. destruct HaccF as (F1 & F2 & F3). auto.
+    - exists fe. auto.
   Qed.
 
   (* ---- runs ------------------------------------------------------------------------------------- *)
 
+  (* the conclusion: the leaves are a tokenisation of a prefix of the input (of the whole
+     input when consume_input is on) *)
+  Definition tok_result (pos : N) (t : tree) : Prop :=
+    chain_ok sk (leaves t) /\ All (leaf_ok tokok) (leaves t) /\
+    match bounds (leaves t) with
+    | None => consume = true -> sk pos = in_len
+    | Some (fs, le) => fs = sk pos /\ (consume = true -> (le <= in_len)%N /\ sk le = in_len)
+    end.
+
+  Lemma lspan_tok_result P pos t fe :
+    P 0%N = pos -> (consume = true -> sk (P fe) = in_len) -> lspan P (leaves t) 0%N fe -> tok_result pos t.
+  Proof.
+    intros E0 Hc (T1 & T2 & T3 & T4). split; [exact T1|]. split; [exact T2|]. rewrite T3.
+    destruct (N.eqb_spec 0%N fe) as [<-|Hne].
+    - intros Hcon. rewrite <- E0. apply Hc. exact Hcon.
+    - rewrite E0. split; [reflexivity|]. intros Hcon. specialize (Hc Hcon). split; [|exact Hc].
+      rewrite <- Hc. apply Hsk_ge.
+  Qed.
+
   Theorem run2_sound : forall fuel P K st fr nodes root,
     inv g tb st fr -> inv2 P K st fr ->
-    glr_run g tb terms rx in_len stop_id true lexdis skipws rorder fuel st fr = GLRForest nodes root ->
-    forall t, unfolds (glr_forest nodes root) (length nodes) t ->
-      chain_ok sk (leaves t) /\ All (leaf_ok tokok) (leaves t) /\
-      match bounds (leaves t) with
-      | None => sk (P 0%N) = in_len
-      | Some (fs, le) => fs = sk (P 0%N) /\ (le <= in_len)%N /\ sk le = in_len
-      end.
+    glr_run g tb terms rx in_len stop_id consume lexdis skipws rorder fuel st fr = GLRForest nodes root ->
+    forall t, unfolds (glr_forest nodes root) (length nodes) t -> tok_result (P 0%N) t.
   Proof.
     induction fuel as [|f IH]; intros P K st fr nodes root H1 H2 H; cbn [glr_run] in H; [discriminate|].
     destruct (step st fr) as [st' fr'|r] eqn:Es.
@@ -1631,21 +1742,19 @@ Section Tok.
       pose proof (step_inv g tb start Hts _ _ _ _ _ _ _ _ _ _ _ _ H1 Es) as H1'.
       intros t Ht. rewrite <- E0. eapply IH; eassumption.
     - subst r. destruct (step_fin_forest _ _ _ _ _ _ _ _ _ _ _ _ _ _ Es) as (k & -> & Hb).
-      eapply build_forest2_sound; eassumption.
+      intros t Ht. destruct (build_forest2_sound P K st k nodes root H1 H2 Hb t Ht) as (fe & _ & Hc & Hs).
+      eapply lspan_tok_result; [reflexivity|exact Hc|exact Hs].
   Qed.
 
-  (* Tokenisation soundness of the GLR driver model with consume_input on, under the condition
-     that keeps the heads of a frontier in step: every tree of the returned forest has leaves
-     that start right after the leading layout, are matched by their recognizers, follow one
-     another separated by layout only, and are followed by layout only up to the end of input. *)
+  (* Tokenisation soundness of the GLR driver model under the condition that keeps the heads
+     of a frontier in step: every tree of the returned forest has leaves that start right after
+     the leading layout, are matched by their recognizers and follow one another separated by
+     layout only -- a tokenisation of a prefix of the input; with consume_input on, of the whole
+     input (only layout after the last leaf). *)
   Theorem glr_tok_sound fuel pos nodes root :
-    glr_parse g tb terms rx in_len stop_id true lexdis skipws rorder fuel pos = GLRForest nodes root ->
+    glr_parse g tb terms rx in_len stop_id consume lexdis skipws rorder fuel pos = GLRForest nodes root ->
     forall t, unfolds (glr_forest nodes root) (pred (length (glr_forest nodes root))) t ->
-      chain_ok sk (leaves t) /\ All (leaf_ok tokok) (leaves t) /\
-      match bounds (leaves t) with
-      | None => sk pos = in_len
-      | Some (fs, le) => fs = sk pos /\ (le <= in_len)%N /\ sk le = in_len
-      end.
+      tok_result pos t.
   Proof.
     unfold glr_parse. intros H t Ht.
     replace (pred (length (glr_forest nodes root))) with (length nodes) in Ht
